@@ -68,9 +68,10 @@ def check(world, tier):
         elif o.kind == "unwrap" and head == "tftpd::socket::Socket::remote_addr":
             lemma, why = lemma_conn(world, eng, o, self_root, fi)
         elif o.kind == "unwrap" and head == "std::path::Path::to_str":
-            # A-UTF8: only in the function that is the path validator (it also walks the ancestors)
-            is_validator = any(base_name(e) == "std::path::Path::ancestors" and e.ctx == o.ctx for e in eng.events)
-            lemma, why = ("A-UTF8" if is_validator else None, "to_str().unwrap() outside the path validator")
+            # A-UTF8: the path is join(<served directory>, <String from the request>): the String part is UTF-8 by type, the
+            # served directory by assumption
+            joined = term_contains(v, is_app("std::path::Path::join")) if v is not None else False
+            lemma, why = ("A-UTF8" if joined else None, "to_str().unwrap() on a path that is not join(<served directory>, <request string>)")
         a.ob(lemma is not None, key, "cannot discharge %s in %s on the listener thread: %s %s" % (o.detail, short(o.body), o.residual, why),
              o.loc, sample={"obligation": o.kind + " " + o.detail, "in": short(o.body), "at": o.loc, "how": lemma})
     std_callee_audit(a, eng, world, region="listener", what="the listener thread")
@@ -176,6 +177,34 @@ def check(world, tier):
                  sample={"loop-head largest_block_size": lin.show(v[1]) if v[0] == "i" else repr(v)[:60]})
     else:
         t.fail("anchor-lost Server::new/largest_block_size", "Server::new or field largest_block_size not found")
+
+    # ---------------------------------------------------------------- C05.f no silent drop
+    f = rep.clause("C05.f", "no request is dropped silently: a loop iteration that decoded a RRQ/WRQ ends with a reply sent, a worker spawned, or a handler error")
+    PACKET = "tftpd::packet::Packet"
+    kinds = {i + 1: v["name"] for i, v in enumerate(prog.adts[PACKET]["variants"])}
+    heads = sorted([k for k in eng.loop_backs if k[0] == eng.entry_frame], key=repr)
+    n_req = 0
+    for hk in heads:
+        for s_ in eng.loop_backs[hk]:
+            g_ = s_.store.get(("G",), {})
+            kd = g_.get(("kind",))
+            kn = kinds.get(kd[1][0]) if kd is not None and kd[0] == "i" and not kd[1][1] else None
+            if kn not in ("Rrq", "Wrq"):
+                continue
+            n_req += 1
+
+            def unchanged(name):
+                v = g_.get((name,))
+                ps = eng.sym_ids.get(("phi", hk[0], hk[1], ("G",), (name,)))
+                return v is None or (v[0] == "i" and ps is not None and v[1] == (0, ((ps, 1),)))
+            he = g_.get(("herr",))
+            herr = he is not None and he[0] == "i" and s_.ctx.entails_eq(he[1], lin.const(1)) and not unchanged("herr")
+            ok = (not unchanged("reply")) or (not unchanged("spawned")) or herr
+            f.ob(ok, "request-dropped-silently %s" % kn,
+                 "an iteration of the listen loop can receive a well-formed %s and go back to the receive without having sent a reply, started a transfer "
+                 "or reported a handler error: such requests are never answered" % kn.upper(),
+                 sample={"request": kn, "iteration ends with": "reply / spawn / handler error"})
+    f.need(n_req, 4, "loop iterations that decoded a request")
     return rep
 
 
